@@ -38,6 +38,9 @@ pub struct Case {
     /// then changed to `cap` (a store whose capability is a runtime setting)
     #[serde(default)]
     pub prior: u8,
+    /// the ceremonies come from an Android app origin (asset link for example.com) instead of the web origin
+    #[serde(default)]
+    pub android: bool,
 }
 fn cap_of(c: u8) -> Cap {
     match c {
@@ -63,14 +66,17 @@ pub fn cases() -> Vec<Case> {
                                 // the wrappers are spread over the configuration cells, and every
                                 // residentKey x capability cell meets every wrapper with default configuration
                                 let wrap = (hmac + prf + u8::from(counter)) % 4;
-                                v.push(Case { cap, resident_key, require_resident_key, cred_props, ctap: false, rk: false, cfg, prf, wrap, prior: 0 });
+                                v.push(Case { cap, resident_key, require_resident_key, cred_props, ctap: false, rk: false, cfg, prf, wrap, prior: 0, android: false });
+                                if wrap == 0 {
+                                    v.push(Case { cap, resident_key, require_resident_key, cred_props, ctap: false, rk: false, cfg, prf, wrap, prior: 0, android: true });
+                                }
                                 if hmac == 0 && prf == 0 && !counter {
                                     for wrap in 1..4u8 {
-                                        v.push(Case { cap, resident_key, require_resident_key, cred_props, ctap: false, rk: false, cfg, prf, wrap, prior: 0 });
+                                        v.push(Case { cap, resident_key, require_resident_key, cred_props, ctap: false, rk: false, cfg, prf, wrap, prior: 0, android: false });
                                     }
                                     for prior in 1..3u8 {
                                         for wrap in [0u8, 1] {
-                                            v.push(Case { cap, resident_key, require_resident_key, cred_props, ctap: false, rk: false, cfg, prf, wrap, prior });
+                                            v.push(Case { cap, resident_key, require_resident_key, cred_props, ctap: false, rk: false, cfg, prf, wrap, prior, android: false });
                                         }
                                     }
                                 }
@@ -84,10 +90,10 @@ pub fn cases() -> Vec<Case> {
             for (hmac, hmac_mc) in [(0u8, false), (2, true)] {
                 let cfg = super::common::AuthCfg { counter: hmac != 0, id_len: (hmac != 0).then_some(32), hmac, hmac_mc };
                 for wrap in 0..4u8 {
-                    v.push(Case { cap, resident_key: 0, require_resident_key: false, cred_props: 0, ctap: true, rk, cfg, prf: 0, wrap, prior: 0 });
+                    v.push(Case { cap, resident_key: 0, require_resident_key: false, cred_props: 0, ctap: true, rk, cfg, prf: 0, wrap, prior: 0, android: false });
                 }
                 for prior in 1..3u8 {
-                    v.push(Case { cap, resident_key: 0, require_resident_key: false, cred_props: 0, ctap: true, rk, cfg, prf: 0, wrap: 0, prior });
+                    v.push(Case { cap, resident_key: 0, require_resident_key: false, cred_props: 0, ctap: true, rk, cfg, prf: 0, wrap: 0, prior, android: false });
                 }
             }
         }
@@ -128,7 +134,7 @@ where
     let mut fs = vec![];
     let cap = cap_of(c.cap);
     let auth = super::common::mk_auth(handed, ScriptedUv::consenting(log.clone()), &c.cfg);
-    let origin = url::Url::parse("https://example.com").unwrap();
+    let org = if c.android { super::common::Org::Android } else { super::common::Org::HostIsRp };
     let supports = cap != Cap::OnlyNonDiscoverable;
     let rk = if c.ctap { c.rk } else { expected_rk(c, supports) };
     let mut bad = |kind: &str, d: String| fs.push(Finding::new(format!("level={}/kind={kind}", if c.ctap { "ctap2" } else { "client" }), d, case.clone()));
@@ -185,8 +191,8 @@ where
             _ => Some(webauthn::AuthenticationExtensionsPrfInputs { eval: Some(webauthn::AuthenticationExtensionsPrfValues { first: vec![1, 2, 3].into(), second: None }), eval_by_credential: None }),
         };
         let extensions = (c.cred_props != 0 || c.prf != 0).then(|| webauthn::AuthenticationExtensionsClientInputs { cred_props: (c.cred_props != 0).then_some(c.cred_props == 2), prf, prf_already_hashed: None });
-        let opts = creation_options(Reg { selection, extensions, user_id: vec![7, 7], ..Default::default() });
-        match par::catch(|| block_on(client.register(&origin, opts, DefaultClientData))) {
+        let opts = creation_options(Reg { rp_id: c.android.then(|| "example.com".to_string()), selection, extensions, user_id: vec![7, 7], ..Default::default() });
+        match par::catch(|| super::common::with_origin(org, |o| block_on(client.register(o, opts, DefaultClientData)))) {
             Err(p) => {
                 bad("panic", format!("register panicked: {p}"));
                 return (fs, "panic".into());
@@ -259,13 +265,13 @@ where
     // discouraged on a second client whose user is present but not verified
     let id = new_id.unwrap_or_default();
     for unverified in [false, true] {
-    let opts = request_options(Auth { allow: Some(vec![id.clone()]), uv: if unverified { webauthn::UserVerificationRequirement::Discouraged } else { Default::default() }, ..Default::default() });
+    let opts = request_options(Auth { rp_id: c.android.then(|| "example.com".to_string()), allow: Some(vec![id.clone()]), uv: if unverified { webauthn::UserVerificationRequirement::Discouraged } else { Default::default() }, ..Default::default() });
     let res = if unverified {
         let uv2 = ScriptedUv::consenting(Log::new()).outcome(UvOutcome::Ok { presence: true, verification: false });
         let mut c2 = Client::new(Authenticator::new(Aaguid::new_empty(), store.clone(), uv2));
-        par::catch(|| block_on(c2.authenticate(&origin, opts, DefaultClientData)))
+        par::catch(|| super::common::with_origin(org, |o| block_on(c2.authenticate(o, opts, DefaultClientData))))
     } else {
-        par::catch(|| block_on(client.authenticate(&origin, opts, DefaultClientData)))
+        par::catch(|| super::common::with_origin(org, |o| block_on(client.authenticate(o, opts, DefaultClientData))))
     };
     match res {
         Err(p) => bad("panic", format!("authenticate panicked: {p}")),
@@ -296,7 +302,7 @@ pub fn run(ctx: &Ctx) -> Result<Run, String> {
     let n = cs.len() as u64;
     let mut run = Run::from_stats(
         "model_checking",
-        "complete product store capability(3) x residentKey{no selection, absent, discouraged, preferred, required} x requireResidentKey(2) x credProps{absent,false,true} x authenticator configuration {no hmac-secret, UV-only, with non-UV secret, with evaluation at creation} x prf input {absent, empty, eval} x counters on/off, the store handed over bare / inside Arc<Mutex> / Arc<RwLock> / Mutex (the shipped lock wrappers), on a fresh authenticator and on one that earlier answered getInfo / registered while the store had another capability, through Client::register + Client::authenticate, plus capability(3) x rk(2) through Authenticator::make_credential; each configuration runs a registration and two assertions with the new credential (default requirement with a verified user; verification discouraged with a present but unverified user); every configuration is non-trivial (it reaches save_credential or the required-rk refusal)",
+        "complete product store capability(3) x residentKey{no selection, absent, discouraged, preferred, required} x requireResidentKey(2) x credProps{absent,false,true} x authenticator configuration {no hmac-secret, UV-only, with non-UV secret, with evaluation at creation} x prf input {absent, empty, eval} x counters on/off, the store handed over bare / inside Arc<Mutex> / Arc<RwLock> / Mutex (the shipped lock wrappers), on a fresh authenticator and on one that earlier answered getInfo / registered while the store had another capability, from the web origin and from an Android app origin, through Client::register + Client::authenticate, plus capability(3) x rk(2) through Authenticator::make_credential; each configuration runs a registration and two assertions with the new credential (default requirement with a verified user; verification discouraged with a present but unverified user); every configuration is non-trivial (it reaches save_credential or the required-rk refusal)",
         true,
         stats,
     );
